@@ -91,10 +91,10 @@ Section DS.
 
   (* extra_data holds exactly the told points, each with the full result told LAST *)
   Theorem ds_extra_exact : PointLaws L -> forall h k x,
-    alookup L x (extra (run pick (DataSaver.init L R k) h)) = last_told L x h /\
+    alookup L x (extra (run pick (DataSaver.init L R k) h)) = last_told x h /\
     ((exists r, alookup L x (extra (run pick (DataSaver.init L R k) h)) = Some r) <->
      (exists x' r, In (x', r) (tolds h) /\ peqb L x' x = true)).
-  Proof. intros PL h k x. split; [apply extra_data_value; exact PL|apply extra_data_keys; exact PL]. Qed.
+  Proof. intros PL h k x. split; [apply (extra_data_value pick PL)|apply (extra_data_keys pick PL)]. Qed.
 
   (* re-tell: same full result for a point whose child ignores / accepts the
      re-tell without change -> nothing changes at all *)
@@ -158,7 +158,7 @@ End KeepFirst.
    extra_data[3] says (9, "b") -- extra_data no longer belongs to data *)
 Lemma ds_extra_overwritten_pf :
   let KL := KeepFirst.learner in
-  let pick := fun r : nat * nat => fst r in
+  let pick : nat * nat -> value KL := fun r : nat * nat => fst r in
   let s := run pick (DataSaver.init KL (nat * nat) KeepFirst.init)
                [@Tell KL (nat * nat) 3 (7, 1); @Tell KL (nat * nat) 3 (9, 2)] in
   getattr (data KL) s = [(3, 7)] /\ alookup KL 3 (extra s) = Some (9, 2).
